@@ -222,6 +222,6 @@ func Props() []kit.Runner {
 		kit.Prop[Case]{ID: "C03", Name: "direct", Rule: "binder-direct (map target vs model, struct target vs map target), 1-4 declarations x 1-3 requests; " + ruleCommon,
 			Quick: 20000, Thorough: 120000, Gen: GenDirect, Check: CheckDirect, Classify: Classify, Exclude: findingClass, SampleLimit: 1200},
 		kit.Prop[Case]{ID: "C03", Name: "full", Rule: "full stack (description -> untyped API -> Context.APIHandler), 1-5 declarations x 8 requests per loaded API; " + ruleCommon,
-			Quick: 2000, Thorough: 6000, Gen: GenFull, Check: CheckFull, Classify: Classify, Exclude: findingClass, SampleLimit: 1200},
+			Quick: 1500, Thorough: 6000, Gen: GenFull, Check: CheckFull, Classify: Classify, Exclude: findingClass, SampleLimit: 1200},
 	}
 }
